@@ -34,6 +34,17 @@ class C06Runner(hh.Runner):
         if op[0] == "set" and False:
             pass
         ref = hh.prune_audit(self.trie, self.db.raw(), self.model, self.ctx)
+        # an observer asks for counts by hash, also of nodes that have just died: they report 0
+        # (or are simply absent), and asking changes nothing
+        cur = set(ref.reach())
+        dead = sorted(getattr(self, "prev_reach", set()) - cur)
+        for h in dead[:3]:
+            rc = self.trie.ref_count
+            n = rc[h] if hasattr(rc, "__getitem__") and (h in rc or hasattr(rc, "default_factory")) else 0
+            if n != 0:
+                raise hh.Violation("prune-refcount", "a node that is no longer referenced reports count %r" % (n,))
+            self.ctx.count("dead_node_counts_read")
+        self.prev_reach = cur
         if len(self.model) >= 2:
             self.ctx.shape(ref.shape())
 
